@@ -1447,10 +1447,12 @@ impl MonthShape {
         let Some(day) = self.nth_day(day_ordinal) else {
             return None;
         };
-        let Ok(date) = self.calendar.at_ymd(self.year, self.month, day) else {
-            unreachable!();
-        };
-        Some(date)
+        // `day` is a valid day of the month, so the only possible error is the
+        // date's Julian day number not fitting in a `Jdnum`.
+        match self.calendar.at_ymd(self.year, self.month, day) {
+            Ok(date) => Some(date),
+            Err(_) => None,
+        }
     }
 
     /// Returns the range of days of the month that were skipped by a calendar
